@@ -403,6 +403,43 @@ pub fn build_via(path: &str, items: &[Kv], set: bool) -> Vec<u8> {
             b.extend_stream(a.op().add(&c).union()).unwrap();
             b.into_inner().unwrap()
         }
+        // a set builder takes a repeat of the key it accepted last as a no-op: feeding keys more than
+        // once must not show in the bytes (same input name, hence the same digest is required)
+        ("insert_repeats", true) | ("raw_add_repeats", true) | ("extend_iter_repeats", true) | ("extend_stream_repeats", true) | ("insert_repeats_some", true) => {
+            let mut fed: Vec<Vec<u8>> = vec![];
+            for (i, k) in keys.iter().enumerate() {
+                let times = if path == "insert_repeats_some" { 1 + (i % 3) } else { 2 };
+                for _ in 0..times {
+                    fed.push(k.clone());
+                }
+            }
+            match path {
+                "raw_add_repeats" => {
+                    let mut b = Builder::memory();
+                    for k in &fed {
+                        b.add(k).unwrap();
+                    }
+                    b.into_inner().unwrap()
+                }
+                "extend_iter_repeats" => {
+                    let mut b = fst::SetBuilder::memory();
+                    b.extend_iter(fed.iter().cloned()).unwrap();
+                    b.into_inner().unwrap()
+                }
+                "extend_stream_repeats" => {
+                    let mut b = fst::SetBuilder::memory();
+                    b.extend_stream(VecStreamSet { items: fed.iter().map(|k| (k.clone(), 0u64)).collect(), i: 0 }).unwrap();
+                    b.into_inner().unwrap()
+                }
+                _ => {
+                    let mut b = fst::SetBuilder::memory();
+                    for k in &fed {
+                        b.insert(k).unwrap();
+                    }
+                    b.into_inner().unwrap()
+                }
+            }
+        }
         ("from_iter", false) => fst::Map::from_iter(items.iter().map(|(k, v)| (k.clone(), *v))).unwrap().as_fst().as_bytes().to_vec(),
         ("from_iter", true) => fst::Set::from_iter(keys.iter().cloned()).unwrap().as_fst().as_bytes().to_vec(),
         ("raw_from_iter", false) => fst::raw::Fst::from_iter_map(items.iter().map(|(k, v)| (k.clone(), *v))).unwrap().as_bytes().to_vec(),
@@ -412,7 +449,7 @@ pub fn build_via(path: &str, items: &[Kv], set: bool) -> Vec<u8> {
 }
 
 pub const MAP_PATHS: &[&str] = &["raw_insert", "insert_with_rejects", "front_insert", "extend_iter", "raw_extend_iter", "extend_stream_vec", "raw_extend_stream", "extend_stream_fst", "from_iter", "raw_from_iter"];
-pub const SET_PATHS: &[&str] = &["raw_add", "insert_with_rejects", "raw_insert_zero", "front_insert", "extend_iter", "extend_stream_vec", "extend_stream_fst", "extend_stream_union", "from_iter", "raw_from_iter"];
+pub const SET_PATHS: &[&str] = &["raw_add", "insert_with_rejects", "raw_insert_zero", "front_insert", "extend_iter", "extend_stream_vec", "extend_stream_fst", "extend_stream_union", "from_iter", "raw_from_iter", "insert_repeats", "raw_add_repeats", "extend_iter_repeats", "extend_stream_repeats", "insert_repeats_some"];
 
 /// The named inputs of C15, reproducible from (name, seed) in a child process.
 pub fn c15_inputs(seed: u64, tier: &str) -> Vec<(String, Vec<Kv>, bool)> {
@@ -435,6 +472,9 @@ pub fn c15_inputs(seed: u64, tier: &str) -> Vec<(String, Vec<Kv>, bool)> {
         vec!["a", "ba", "cba", "dcba", "edcba"],
         vec!["ing", "king", "liking", "making", "ring", "string", "zing"],
         vec!["0x", "10x", "110x", "2", "20x", "3", "30x", "330x"],
+        vec!["ad", "bcd"],
+        vec!["ax", "bax", "cbax", "cbay"],
+        vec!["d", "ed", "fed", "fee", "gfed"],
     ];
     for (j, c) in chains.into_iter().enumerate() {
         let keys: Vec<Vec<u8>> = c.iter().map(|k| k.as_bytes().to_vec()).collect();
